@@ -644,6 +644,11 @@ func runBrokerScenario(o *out, tag, replay string, gen func(r *rng) (plain, hook
 		for _, m := range mls {
 			o.emit(fmt.Sprintf("!C09.mux role=%s kind=%s", m.role, m.kind), m.impl, m.pred)
 		}
+		// two dials of an id whose listener is not being served, then a fresh pair (both roles)
+		for _, role := range []string{"server", "client"} {
+			impl, pred := boundedCell(90*time.Second, func() (string, string) { return runMuxDupDialUnserved(role) })
+			o.emit("!C09.mux role="+role+" kind=dup-dial-unserved", impl, pred)
+		}
 		// a listener nobody dials, left open on each side, then the pair is closed: no knock loop stays behind
 		{
 			impl, pred := runMuxOpenListenerThenClose()
